@@ -29,7 +29,8 @@ RULE = ("four case kinds in rotation 3:1:4:2 - split: texts of 0-40 (some 200) c
         "preseek=False at a cursor; jsonl: JSON Lines files of 0-8 lines (ints, strings with multi-byte characters, "
         "corrupt, blank and white-space lines, \\n/\\r\\n endings, 15% padded to 1-3 blocks of 4096 bytes with a "
         "\\r\\n or a multi-byte character across a block edge), drained forward and in reverse, ignore_errors "
-        "on/off; thorough adds four complete small scopes (every text over {a,\\n,\\r,\\x85,U+2028} up to length 5; "
+        "on/off; thorough adds five complete small scopes (every text over {a,\\n,\\r,\\x85,U+2028} up to length 5 and over "
+        "{a,' ','2','8',\\n,\\r,\\x85,U+2028,\\x1c} up to length 4; "
         "every content over {a,\\n,\\r} up to length 7 with block sizes 1,2,3,5,default; every JSON Lines file of up "
         "to 3 lines over 5 line kinds x 2 terminators, strict and lenient; every 1-3 byte string over "
         "the UTF-8 table's boundary bytes through the primitives); one case in eleven (prim) observes the CPython "
@@ -161,6 +162,17 @@ def sweep(tier):
     for n in range(0, 6):
         for t in itertools.product([97, 10, 13, 0x85, 0x2028], repeat=n):
             yield {"k": "split", "runs": [[list(t), 1]]}
+    # ... and over {a, ' ', '2', '8', \n, \r, \x85, U+2028, \x1c} up to length 4 (the ' 28' typo, \x1c is no break),
+    # alternately through iter_splitlines and indent
+    j = 0
+    for n in range(0, 5):
+        for t in itertools.product([97, 32, 50, 56, 10, 13, 0x85, 0x2028, 0x1c], repeat=n):
+            j += 1
+            if j % 2:
+                yield {"k": "split", "runs": [[list(t), 1]]}
+            else:
+                yield {"k": "indent", "runs": [[list(t), 1]], "margin": MARGINS[j % len(MARGINS)],
+                       "newline": NEWLINES[j % len(NEWLINES)]}
     k = 0
     for n in range(0, 8):
         for t in itertools.product([97, 10, 13], repeat=n):
